@@ -205,13 +205,27 @@ class Cache(object):
 
     def _dump_flow_and_yield(self, flow):
         # fill cache and yield values
-        with open(self._filename, "wb") as f:
-            dump = lambda val: self._dump(val, f, self.protocol)
-            for val in flow:
-                # if there were an error in a next element,
-                # our value will be saved first (before yielding)
-                dump(val)
-                yield val
+        # The cache is written to a temporary file, which gets
+        # the real name only after the whole flow was stored:
+        # an interrupted run must not leave a truncated cache.
+        tmp_filename = self._filename + ".tmp"
+        complete = False
+        try:
+            with open(tmp_filename, "wb") as f:
+                dump = lambda val: self._dump(val, f, self.protocol)
+                for val in flow:
+                    # if there were an error in a next element,
+                    # our value will be saved first (before yielding)
+                    dump(val)
+                    yield val
+            complete = True
+        finally:
+            if not complete:
+                try:
+                    os.remove(tmp_filename)
+                except OSError:
+                    pass
+        os.rename(tmp_filename, self._filename)
 
 
     def _load_flow(self):
